@@ -56,6 +56,10 @@ std::pair<bool, int> TetrisLegalizer::attemptPlacement(int cell, int y) const {
 }
 
 void TetrisLegalizer::placeCell(int cell) {
+  if (nbRows() == 0) {
+    // No free row left: the cell cannot be placed
+    return;
+  }
   int targetX = cellTargetX_[cell];
   int targetY = cellTargetY_[cell];
   int bestX = 0;
